@@ -37,7 +37,7 @@ ASSUMPTIONS = ["attributes outside the format's ranges (|chg|>15, rad>3) are out
 
 
 def budget(tier):
-    return {"examples": 400 if tier == "quick" else 10000, "shards": 16, "wall": 150 if tier == "quick" else 3000}
+    return {"examples": 300 if tier == "quick" else 10000, "shards": 16, "wall": 150 if tier == "quick" else 3000}
 
 
 SPECIAL_FLOATS = [0.0, -0.0, 1.0, -1.0, 0.5, 1e-7, 5e-324, 2.2250738585072014e-308, 1e15, 1e16, 1e22, 1e23, 1e100, -1e100, 1e300, 1.7976931348623157e308, 123456.7890125, 0.0000005, 0.9999995]
